@@ -280,8 +280,16 @@ impl Monitor {
             Op::Set(c, _) => self.writes.push((i, Write::Cell(*c))),
             Op::SetD(c, _, d) => {
                 self.writes.push((i, Write::Cell(*c)));
+                // only a write that LOWERS the durability makes salsa re-stamp things whose value
+                // did not change (results cannot be backdated, struct fields are re-stamped); after
+                // a raise everything that compares equal must be reused. Without the previous
+                // durability any change counts.
                 let before = pre_world.map(|w| w.cell_dur[*c as usize]);
-                if before != Some(*d) {
+                let lowered = match before {
+                    Some(b) => *d < b,
+                    None => true,
+                };
+                if lowered {
                     self.writes.push((i, Write::DurChange));
                 }
             }
